@@ -43,6 +43,7 @@ type FuncSpec struct {
 	Trusted  bool
 	NoInline bool
 	Inline   bool
+	Skip     string // not verified, with the reason (listed in evidence)
 	Faults   []string // K1 kinds that are specified fault behaviour (run-time panics converted by a caller)
 	Asserts  []*AnchorClause
 	Sites    []*AnchorClause
@@ -326,6 +327,11 @@ func (S *Specs) parseClause(file string, line int, cur *FuncSpec, word, rest str
 		cur.NoInline = true
 	case "inline":
 		cur.Inline = true
+	case "skip":
+		cur.Skip = rest
+		if cur.Skip == "" {
+			cur.Skip = "not under contract"
+		}
 	case "waive":
 		// waive <kind> "text" reason...
 		k, r := splitWord(rest)
